@@ -110,6 +110,18 @@ static struct snap sb, sa;
 static void op_insert(int key, int use_malloc, struct knode *pool)
 {
 	char ctx[64]; snprintf(ctx, sizeof ctx, "after insert(%d)", key);
+	if (node_of[key] && (ops_done & 1)) {
+		/* the key is present and the node handed in is the very node that is in the tree: must fail and change nothing, too */
+		take_snap(&sb);
+		int r0 = iv_avl_tree_insert(&tree, &node_of[key]->an);
+		ops_done++;
+		vz_label(L_DUP_INSERT);
+		if (r0 != -1) FAIL("duplicate-accepted", "re-insert of the node that holds key %d returned %d", key, r0);
+		take_snap(&sa);
+		if (memcmp(&sb, &sa, sizeof sb)) FAIL("duplicate-changed-tree", "failed re-insert of the in-tree node with key %d modified the tree", key);
+		check_all(ctx);
+		return;
+	}
 	struct knode *k = use_malloc ? malloc(sizeof *k) : pool;
 	memset(k, 0xA5, sizeof *k);
 	k->key = key;
